@@ -514,6 +514,36 @@ pub fn eval_unit_name(
                 }
                 let right = right.value.to_f64();
                 let (left_unit, left_value) = eval_unit_name(ctx, &binop.left)?;
+                if right.fract() != 0.0 {
+                    // The code below raises the names and the constant to
+                    // the integer part of the exponent, `10 m -> 2^0.5 m`
+                    // would be shown as a conversion to meters.
+                    let mut unit = BTreeMap::new();
+                    for (k, v) in left_unit {
+                        let power = v as f64 * right;
+                        if power.fract() != 0.0 {
+                            return Err(QueryError::generic(
+                                "Exponentiation must result in integer dimensions".to_string(),
+                            ));
+                        }
+                        if power != 0.0 {
+                            unit.insert(k, power as isize);
+                        }
+                    }
+                    let value = if left_value == Numeric::one() {
+                        left_value
+                    } else {
+                        let value = left_value.to_f64().powf(right);
+                        if !value.is_finite() || value == 0.0 {
+                            return Err(QueryError::generic(format!(
+                                "Exponentiation in the right hand side of conversions gives {}",
+                                value
+                            )));
+                        }
+                        Numeric::Float(value)
+                    };
+                    return Ok((unit, value));
+                }
                 if left_value == Numeric::zero() && right < 0.0 {
                     return Err(QueryError::generic("Division by zero".to_string()));
                 }
